@@ -271,11 +271,7 @@ def to_xir(prog: Program, **kwargs) -> xir.Program:
             params = {}
             if cmd.op.p:
                 # argument is quadrature phase
-                a = cmd.op.p[0]
-                if a in getattr(prog, "loop_vars", ()):
-                    params["phi"] = a.name
-                else:
-                    params["phi"] = a
+                params["phi"] = _param_to_xir(cmd.op.p[0], prog)
 
             # special case to take into account 'select' keyword argument
             if cmd.op.select is not None:
@@ -294,40 +290,43 @@ def to_xir(prog: Program, **kwargs) -> xir.Program:
                     )
                     xir_prog.add_declaration(gate_decl)
 
-            params = []
-            for i, a in enumerate(cmd.op.p):
-                if sfpar.par_is_symbolic(a):
-                    if not a.atoms(sfpar.MeasuredParameter, sfpar.FreeParameter):
-                        # a constant symbolic expression: evaluate it. Expressions of free or
-                        # measured parameters are written as such, also when the parameters
-                        # currently have a value (bound arguments, outcomes of an earlier run)
-                        a = sfpar.par_evaluate(a)
-                    # if a tdm param
-                    elif a in getattr(prog, "loop_vars", ()):
-                        a = a.name
-                    # if a pure symbol (free parameter), convert to string
-                    elif a.is_symbol:
-                        a = a.name
-                    # else, assume it's a symbolic function and replace all free parameters
-                    # with string representations
-                    else:
-                        symbolic_func = a.copy()
-                        for s in symbolic_func.free_symbols:
-                            symbolic_func = symbolic_func.subs(s, s.name)
-                        a = str(symbolic_func)
-
-                elif isinstance(a, str):
-                    pass
-                elif isinstance(a, Iterable):
-                    # if an iterable, make sure it only consists of lists and Python types
-                    a = _listr(a)
-                params.append(a)
+            params = [_param_to_xir(a, prog) for a in cmd.op.p]
 
         # inverted gates are written with the XIR ``inv`` modifier
         op = xir.Statement(name, params, wires, inverse=bool(getattr(cmd.op, "dagger", False)))
         xir_prog.add_statement(op)
 
     return xir_prog
+
+
+def _param_to_xir(a, prog):
+    """Converts an operation parameter to the object representing it in an XIR statement."""
+    if sfpar.par_is_symbolic(a):
+        if not a.atoms(sfpar.MeasuredParameter, sfpar.FreeParameter):
+            # a constant symbolic expression: evaluate it. Expressions of free or
+            # measured parameters are written as such, also when the parameters
+            # currently have a value (bound arguments, outcomes of an earlier run)
+            a = sfpar.par_evaluate(a)
+        # if a tdm param
+        elif a in getattr(prog, "loop_vars", ()):
+            a = a.name
+        # if a pure symbol (free parameter), convert to string
+        elif a.is_symbol:
+            a = a.name
+        # else, assume it's a symbolic function and replace all free parameters
+        # with string representations
+        else:
+            symbolic_func = a.copy()
+            for s in symbolic_func.free_symbols:
+                symbolic_func = symbolic_func.subs(s, s.name)
+            a = str(symbolic_func)
+
+    elif isinstance(a, str):
+        pass
+    elif isinstance(a, Iterable):
+        # if an iterable, make sure it only consists of lists and Python types
+        a = _listr(a)
+    return a
 
 
 def _inverse(gate):
